@@ -70,7 +70,7 @@ func (v DenseFloat32Vector) APPEND(w DenseFloat32Vector) DenseFloat32Vector {
   return append(v, w...)
 }
 func (v DenseFloat32Vector) ToDenseFloat32Matrix(n, m int) *DenseFloat32Matrix {
-  if n*m != len(v) {
+  if n < 0 || m < 0 || n*m != len(v) {
     panic("Matrix dimension does not fit input vector!")
   }
   matrix := DenseFloat32Matrix{}
